@@ -94,7 +94,7 @@ CHECKS["C12"] = dict(level="model_checking", design="5 C12", note=_PANEL_NOTE,
          "coupling block dropped when p1 follows p2 was found by this check and repaired (fix: commit).")
 
 CHECKS["C14"] = dict(level="model_checking", design="5 C14", note=_PANEL_NOTE + " Eigenvalue clauses rest on congruence/scaling "
-    "invariance of generalised eigenvalues (cited theorem) and are additionally observed through lb/freq (dense paths).",
+    "invariance of generalised eigenvalues (cited theorem) and are additionally observed through lb/freq (dense paths). Similar partners at factors (2, 3, 5) and in a far unit system (1e3, 1e-9, 1e-29), the latter for k0, kM and the requested kind.",
     technique="TLA+ module PanelEquiv: the equivalence laws (cone at 0 deg = cylinder, cpanel(r) - plate = K1/r + K2/r^2, "
               "w-only = w block, axis exchange as a permutation congruence, similarity scaling exponents) are TLC invariants "
               "relating two exact evaluations; both members of every pair are replayed on the real code and judged by TLC "
